@@ -560,11 +560,15 @@ pub fn run(prop: &'static str, tier: Tier) -> i32 {
             *d += delta;
         }
     }
-    for p in plans.iter() {
+    let started = std::time::Instant::now();
+    for (i, p) in plans.iter().enumerate() {
+        // what the plans before this one did not use of their share is passed on
+        let left = budget.saturating_sub(started.elapsed());
+        let share = (left / (plans.len() - i) as u32).max(per_plan / 4);
         let params = Params {
             depth_by_devs: p.depth_by_devs.clone(),
             max_states: if tier == Tier::Quick { 300_000 } else { 5_000_000 },
-            time_cap: per_plan,
+            time_cap: share,
             run_closure: matches!(prop, "C02" | "C11"),
         };
         let st = explore_one(&p.cfg, &params, &reporter, &mut ev);
